@@ -91,15 +91,17 @@ def _directive(form, style, tool, name):
             "block-bracket-start": c + f"ignore-start[{name}]",
             "file": c + f"ignore-file[{name}]", "file-bare": c + "ignore-file",
             # the space-separated spellings the documentation also uses
-            "same-line-space": c + f"ignore {name}", "file-space": c + f"ignore-file {name}"}[form]
+            "same-line-space": c + f"ignore {name}", "file-space": c + f"ignore-file {name}",
+            "next-line-space": c + f"ignore-next-line {name}"}[form]
 
 
 def make_h_scope(nlines):
     def h(ctx):
         from src.core.types import Violation
         from src.linter_config.ignore import IgnoreDirectiveParser
-        form = ctx.pick("form", ("same-line", "same-line-bare", "next-line", "block", "block-bracket", "file", "file-bare", "none"))
+        form = ctx.pick("form", ("same-line", "same-line-bare", "next-line", "next-line-space", "block", "block-bracket", "file", "file-bare", "none"))
         bracket_block, form = form == "block-bracket", form.replace("-bracket", "")
+        space_next, form = form == "next-line-space", form.replace("-space", "")
         style = ctx.pick("style", ("#", "//"))
         tool = ctx.pick("tool", ("thailint", "design-lint"))
         names = ctx.pick("names", ("own-prefix", "own-full-upper", "other-rule"))
@@ -112,7 +114,7 @@ def make_h_scope(nlines):
         if form in ("same-line", "same-line-bare"):
             lines[p - 1] += "  " + _directive(form, style, tool, name)
         elif form == "next-line":
-            lines[p - 1] = _directive(form, style, tool, name)
+            lines[p - 1] = _directive("next-line-space" if space_next else form, style, tool, name)
         elif form == "block":
             e = ctx.pick("end", tuple(range(1, n + 1)))
             ctx.assume(e > p)
@@ -122,7 +124,7 @@ def make_h_scope(nlines):
             lines[p - 1] = _directive(form, style, tool, name)
         # optionally a SECOND directive that names another rule: it must change nothing
         second = ctx.pick("second_directive", ("none", "next-line[other]-on-previous-line", "same-line[other]-appended", "block[other]-around-everything",
-                                               "file[other]-on-line-1"))
+                                               "file[other]-on-line-1", "inner-block[other]-nested-right-after-the-start"))
         if second == "next-line[other]-on-previous-line" and p >= 2 and form in ("same-line", "same-line-bare", "none"):
             if "thailint" in lines[p - 2] or "design-lint" in lines[p - 2]:
                 ctx.assume(False)
@@ -136,6 +138,11 @@ def make_h_scope(nlines):
                 ctx.assume(False)
             lines[0] = _directive("block-start", style, tool, "nesting")
             lines[n - 1] = _directive("block-end", style, tool, "nesting")
+        elif second == "inner-block[other]-nested-right-after-the-start" and form == "block" and e - p >= 4:
+            # a complete block for ANOTHER rule inside the block: the outer block stays in force inside and after it
+            lines[p] = _directive("block-start", style, tool, "nesting")
+            lines[p + 1] = _directive("block-end", style, tool, "nesting")
+            ctx.assume(And(v != p + 1, v != p + 2))
         elif second == "file[other]-on-line-1" and form in ("same-line", "next-line", "block") and p >= 2:
             if "ignore" in lines[0]:
                 ctx.assume(False)
@@ -149,7 +156,7 @@ def make_h_scope(nlines):
                 ctx.assume(False)
             lines[0] += "  " + style + " page" + odd + "break"
         # the directive written in capitals, and followed by a reason that happens to mention the violation's own rule
-        plain = second == "none" and odd == "none" and form != "none" and ((tool == "thailint" and names != "own-full-upper") or nlines > 8)
+        plain = second == "none" and odd == "none" and form != "none" and tool == "thailint" and (names != "own-full-upper" or nlines > 8)
         kw_case = ctx.pick("directive_case", ("as-documented", "capitals")) if plain else "as-documented"
         reason = ctx.pick("reason_after_the_directive", ("none", " - the magic-numbers here are fine", "  @ magic-numbers are fine")) if plain else "none"
         ctx.note("directive_case", kw_case)
@@ -477,7 +484,7 @@ def obligations(tier):
            functions=["IgnoreDirectiveParser.should_ignore_violation", "_is_ignored_in_content", "_check_block_ignore/_process_block_line/_handle_block_end",
                       "_check_prev_line_ignore/_get_prev_line", "_check_current_line_ignore", "_has_file_ignore_in_content", "directive_markers.*"],
            bounds="violation line symbolic in [1,%d]; forked: directive form (8, block start as `ignore-start name` and `ignore-start[name]`), the directive in capitals, a reason after it that mentions the violation's own rule, position(s) 1..%d, comment style (#, //), tool word (2), naming (own prefix / own full id upper-case / another rule), an optional second directive naming another rule (previous line, same line, enclosing block, file level); file-level forms use at least 12 lines" % (n, n),
-           timeout=400, workers=14, must_cover=("ignored", "kept")),
+           timeout=400 if n <= 8 else 1500, workers=14, must_cover=("ignored", "kept"), max_paths=400000 if n <= 8 else 1500000),
         Ob(name="K3-every-linter-honours-directives", engine="pathex", harness=h_every_linter,
            functions=["Orchestrator.lint_files", "every rule's check() and its use of the ignore parser"],
            bounds="forked: %d catalogue triggers (rule x language) x 8 directive forms/placements x 3 spellings; nothing symbolic (parser in the loop)" % (len(triggers.T) - 1),
